@@ -272,6 +272,22 @@ def variants(case, labels, vec):
         require(labels_equal(li, labels) and core.close(vi, vec, 1e-12, 1e-13 * scale),
                 'int32 input: %s vs float %s' % (core._short(vi), core._short(vec)),
                 'int-vs-float')
+    # a list of datasets with one precision per dataset: each RDM uses its own precision
+    # (the distance is linear in the precision, so 2N gives twice the N values)
+    if case['noise'] is not None and case['method'] in ('mahalanobis', 'crossnobis') \
+            and not has_mask(case) and not case.get('descriptor_none'):
+        nz = np.array(case['noise'], dtype=float)
+        kw = call_kwargs(case)
+        for form in ('list', 'array3d'):
+            kw['noise'] = [nz.copy(), 2.0 * nz] if form == 'list' else np.array([nz, 2.0 * nz])
+            rl = lib(calc_rdm_unbalanced, [make_dataset(case, x.copy()), make_dataset(case, x.copy())],
+                     on_error='violation', sig='raises:calc_rdm_unbalanced:dataset-list', **kw)
+            vl = np.asarray(rl.dissimilarities, dtype=float)
+            require(vl.shape[0] == 2 and core.close(vl[0], vec[0], 1e-12, 1e-13 * scale)
+                    and core.close(vl[1], 2.0 * vec[0], 1e-12, 2e-13 * scale),
+                    'list of two datasets with precisions [N, 2N] (%s): RDMs %s and %s, the single '
+                    'call with N gives %s' % (form, core._short(vl[0]), core._short(vl[1]),
+                                              core._short(vec[0])), 'dataset-list:per-dataset-noise')
     # a channel missing everywhere == that channel deleted
     if has_mask(case) and known_region(case) is None:
         gone = [c for c in range(x.shape[1]) if np.isnan(x[:, c]).all()]
